@@ -882,7 +882,7 @@ func registerSync(p *Program) {
 		e.atomVals[pc] = a[1]
 		return nil
 	})
-	p.reg("(*sync/atomic.Pointer).Load", func(e *Exec, g *G, a []Value) Value {
+	p.reg("(*sync/atomic.Pointer[T]).Load", func(e *Exec, g *G, a []Value) Value {
 		pc := a[0].(PtrV).C
 		e.atomicSync(g, PtrV{C: pc.F[len(pc.F)-1]})
 		if v, ok := e.atomVals[pc]; ok {
@@ -890,13 +890,23 @@ func registerSync(p *Program) {
 		}
 		return PtrV{}
 	})
-	p.reg("(*sync/atomic.Pointer).Store", func(e *Exec, g *G, a []Value) Value {
+	p.reg("(*sync/atomic.Pointer[T]).Store", func(e *Exec, g *G, a []Value) Value {
 		pc := a[0].(PtrV).C
 		e.atomicSync(g, PtrV{C: pc.F[len(pc.F)-1]})
 		e.atomVals[pc] = a[1]
 		return nil
 	})
-	p.reg("(*sync/atomic.Pointer).CompareAndSwap", func(e *Exec, g *G, a []Value) Value {
+	p.reg("(*sync/atomic.Pointer[T]).Swap", func(e *Exec, g *G, a []Value) Value {
+		pc := a[0].(PtrV).C
+		e.atomicSync(g, PtrV{C: pc.F[len(pc.F)-1]})
+		var cur Value = PtrV{}
+		if v, ok := e.atomVals[pc]; ok {
+			cur = v
+		}
+		e.atomVals[pc] = a[1]
+		return cur
+	})
+	p.reg("(*sync/atomic.Pointer[T]).CompareAndSwap", func(e *Exec, g *G, a []Value) Value {
 		pc := a[0].(PtrV).C
 		e.atomicSync(g, PtrV{C: pc.F[len(pc.F)-1]})
 		var cur Value = PtrV{}
